@@ -373,7 +373,7 @@ func RunProperty(args []string) int {
 		vacOK += r.CanaryOK
 		vacBad += r.CanaryBad
 		vacUnk += r.CanaryUnknown
-		if r.CanaryBad > 0 && r.CanaryOK == 0 {
+		if r.CanaryBad > 0 && r.CanaryOK == 0 && r.CanaryUnknown == 0 {
 			// every return path infeasible: contradictory requires/invariants
 			fmt.Printf("VACUOUS: %s has no satisfiable return path (contradictory contract?)\n", shortKey(r.Key))
 			exitBroken = true
